@@ -2,7 +2,7 @@
 #pragma once
 #include "corpus.h"
 #include "../gen.h"
-static inline std::vector<Str> norm_tokens() { return { "", ".", "..", "a", "c:d", "1:b", ":", "%2e", "%2E%2E", "A", "%41", "%7e" }; }
+static inline std::vector<Str> norm_tokens() { return { "", ".", "..", "a", "c:d", "1:b", ":", "b:" /* a colon as the LAST character of a segment */, "%2e", "%2E%2E", "A", "%41", "%7e" }; }
 
 // size 0: small, 1: quick, 2: thorough
 static inline std::vector<Str> norm_corpus(int size, int bonus = 0) {
